@@ -12,29 +12,8 @@ import (
 
 func init() { streams["c17"] = runC17 }
 
-func (c *Ctx) fl() float64 {
-	switch c.Rng.Intn(6) {
-	case 0:
-		return float64(c.Rng.Intn(9) - 4)
-	case 1:
-		return (c.Rng.Float64()*2 - 1) * 1000
-	case 2:
-		return (c.Rng.Float64()*2 - 1) * 1e-3
-	default:
-		return c.Rng.Float64()*20 - 10
-	}
-}
 
-func (c *Ctx) v3() vector3.Float64 { return vector3.New(c.fl(), c.fl(), c.fl()) }
 
-func (c *Ctx) unit3() vector3.Float64 {
-	for {
-		v := vector3.New(c.Rng.NormFloat64(), c.Rng.NormFloat64(), c.Rng.NormFloat64())
-		if v.Length() > 1e-3 {
-			return v.Normalized()
-		}
-	}
-}
 
 func (c *Ctx) mat4() mat.Matrix4x4 {
 	return mat.Matrix4x4{c.fl(), c.fl(), c.fl(), c.fl(), c.fl(), c.fl(), c.fl(), c.fl(), c.fl(), c.fl(), c.fl(), c.fl(), c.fl(), c.fl(), c.fl(), c.fl()}
@@ -49,7 +28,6 @@ func basisMat(i int) mat.Matrix4x4 {
 func mF(m mat.Matrix4x4) string {
 	return Fs(m.X00, m.X01, m.X02, m.X03, m.X10, m.X11, m.X12, m.X13, m.X20, m.X21, m.X22, m.X23, m.X30, m.X31, m.X32, m.X33)
 }
-func vF(v vector3.Float64) string        { return Fs(v.X(), v.Y(), v.Z()) }
 func qF(q quaternion.Quaternion) string { return Fs(q.Dir().X(), q.Dir().Y(), q.Dir().Z(), q.W()) }
 func bbF(b geometry.AABB) string {
 	return vF(b.Center()) + " " + vF(b.Size().Scale(0.5))
